@@ -1,6 +1,8 @@
 package harness
 
 import (
+	"bytes"
+	"fmt"
 	"math/big"
 	"sync"
 
@@ -12,8 +14,10 @@ import (
 // the capability flags so that only supported operations are ever generated.
 type GroupInfo struct {
 	Name       string
+	baseEnc    []byte // encoding of Base() taken when the registry was built (see constantsIntact)
+	nullEnc    []byte
 	Modulus    *big.Int // residue groups: the prime P (elements are integers mod P)
-	Family     string // ed25519, edvar, p256, qr512, bn256, bn254, bls-kilic, bls-circl, bls-gnark
+	Family     string   // ed25519, edvar, p256, qr512, bn256, bn254, bls-kilic, bls-circl, bls-gnark
 	G          kyber.Group
 	Order      *big.Int // order of the scalar ring (q; 8q for full Edwards groups)
 	PrimeOrder bool
@@ -74,8 +78,34 @@ func libOrder(g kyber.Group) *big.Int {
 }
 
 // Groups returns the registry; extra (thorough-only) instances are included when all is set.
+// snapshotConstants records the encodings of every group's constants before any test has run.
+func snapshotConstants() {
+	for _, gi := range regGroups {
+		if gi.HasBase {
+			gi.baseEnc, _ = gi.G.Point().Base().MarshalBinary()
+		}
+		gi.nullEnc, _ = gi.G.Point().Null().MarshalBinary()
+	}
+}
+
+// constantsIntact: Base() and Null() still give what they gave when the process started.  A
+// constant handed out by reference from a cache is corrupted, for every later caller, by the first
+// in-place update of a value obtained from it - and an oracle that calls Base() itself is corrupted
+// along with the code under test.
+func constantsIntact(gi *GroupInfo) string {
+	if gi.HasBase {
+		if b, _ := gi.G.Point().Base().MarshalBinary(); !bytes.Equal(b, gi.baseEnc) {
+			return fmt.Sprintf("Base() now encodes %x, at process start it encoded %x", b, gi.baseEnc)
+		}
+	}
+	if b, _ := gi.G.Point().Null().MarshalBinary(); !bytes.Equal(b, gi.nullEnc) {
+		return fmt.Sprintf("Null() now encodes %x, at process start it encoded %x", b, gi.nullEnc)
+	}
+	return ""
+}
+
 func Groups(all bool) []*GroupInfo {
-	regOnce.Do(buildRegistry)
+	regOnce.Do(func() { buildRegistry(); snapshotConstants() })
 	var out []*GroupInfo
 	for _, g := range regGroups {
 		if g.Extra && !all {
@@ -87,7 +117,7 @@ func Groups(all bool) []*GroupInfo {
 }
 
 func Suites() []*SuiteInfo {
-	regOnce.Do(buildRegistry)
+	regOnce.Do(func() { buildRegistry(); snapshotConstants() })
 	return regSuites
 }
 
